@@ -633,7 +633,21 @@ pub fn e2e_session_gap(rep: &mut Report, seed: u64, verbose: bool, gap_ms: u64) 
         if verbose {
             println!("  e2e timeout: {} lines received, {} expected", count_lines(&transcript), expected.len());
         }
-        // a silent time-out is inconclusive, not a violation
+        // a silent time-out is inconclusive, not a violation - unless the identical session without
+        // the idle period completes right afterwards (control run: same binary, same script, same
+        // machine load), which leaves the silence on the connection as the only difference
+        if gap_ms > 0 {
+            let mut control = Report::new("C18");
+            let cbad = e2e_session_gap(&mut control, seed, false, 0);
+            if !cbad && control.inconclusive.is_empty() && control.findings.is_empty() {
+                rep.finding(
+                    "e2e|no-reaction-after-idle-period",
+                    || format!("after {} ms without traffic on the control connection the lines sent next were not acted on within 20 s ({} of {} expected messages arrived); the identical session without the idle period completed (seed {})", gap_ms, count_lines(&transcript), expected.len(), seed),
+                    || replay.clone(),
+                );
+                return true;
+            }
+        }
         rep.inconclusive.push(format!("end-to-end session seed {} timed out waiting for the emulator's messages", seed));
         return false;
     }
